@@ -212,6 +212,12 @@ pub struct Snap {
     pub accounting: Stats,
     /// inconsistencies between the read accessors themselves
     pub anomalies: Vec<String>,
+    /// For a pooled transaction with a contract input: which pooled transaction
+    /// created that contract at the moment the user was admitted (recorded by the
+    /// harness from what was pooled then, never read from the pool's graph). A
+    /// contract can also exist on chain or through a handed-out transaction, so a
+    /// creator that shows up later is not a dependency of an earlier user.
+    pub contract_parents: BTreeMap<TxId, BTreeMap<ContractId, TxId>>,
 }
 
 impl Snap {
@@ -243,20 +249,14 @@ pub struct Graph {
 }
 
 impl Graph {
-    pub fn derive<'a>(txs: impl Iterator<Item = &'a Arc<TxInfo>> + Clone) -> Graph {
-        let by_id: BTreeMap<TxId, &Arc<TxInfo>> = txs.clone().map(|t| (t.id, t)).collect();
-        let mut creators: BTreeMap<ContractId, Vec<TxId>> = BTreeMap::new();
-        for t in txs.clone() {
-            for c in t.created_contracts() {
-                creators.entry(c).or_default().push(t.id);
-            }
-        }
+    pub fn of(snap: &Snap) -> Graph {
+        let by_id = &snap.txs;
         let mut g = Graph::default();
-        for t in txs {
+        for t in by_id.values() {
             g.parents.entry(t.id).or_default();
             g.children.entry(t.id).or_default();
         }
-        let mut add = |g: &mut Graph, a: TxId, b: TxId| {
+        let add = |g: &mut Graph, a: TxId, b: TxId| {
             if a != b {
                 g.parents.entry(b).or_default().insert(a);
                 g.children.entry(a).or_default().insert(b);
@@ -270,19 +270,18 @@ impl Graph {
                     add(&mut g, a.id, b.id);
                 }
             }
-            for c in &b.contracts {
-                if let Some(cs) = creators.get(c) {
-                    for a in cs {
+            if let Some(m) = snap.contract_parents.get(&b.id) {
+                for c in &b.contracts {
+                    if let Some(a) = m.get(c)
+                        && let Some(ai) = by_id.get(a)
+                        && ai.created_contracts().any(|x| &x == c)
+                    {
                         add(&mut g, *a, b.id);
                     }
                 }
             }
         }
         g
-    }
-
-    pub fn of(snap: &Snap) -> Graph {
-        Graph::derive(snap.txs.values())
     }
 
     pub fn descendants(&self, x: &TxId) -> BTreeSet<TxId> {
